@@ -434,6 +434,28 @@ theorem for_string_by_chars (cs : List Char) :
   have := strIterAll_enc cs [] [] (cs.length + 1) (Nat.lt_succ_self _)
   simpa [utf8Encode_nil] using this
 
+/-- The loop variables over an exactly-sized iterator (arrays, bytes, and — next theorem —
+strings): pass `k` (0-based) of `n` shows `loop.index0 = k`, `loop.index = k + 1`, `loop.first`
+iff `k = 0`, `loop.last` iff it is the last pass, `loop.length = n`; exactly `n` passes. -/
+theorem loop_vars_spec (n : Nat) :
+    loopRows n = .ok ((List.range n).map fun k => (⟨k, k == 0, k + 1 == n, n⟩ : LoopData)) :=
+  loopRows_eq n
+
+/-- A `for` loop over a string exactly as the VM runs it at the byte level (iterator with its
+`remaining = chars().count()` pre-count, `ForLoop::new` taking `size_hint().1` as the length,
+`Iterate` leaving when `size_hint().0 = 0`): there is one pass per character, the item is that
+character's encoding, and the loop variables count characters — `loop.length` is the number of
+characters (not bytes) and `loop.last` holds on the last character only. No panic (`remaining`
+never underflows, no slice off a char boundary) and `chars + 1` fuel suffices. -/
+theorem for_string_loop_by_chars (cs : List Char) :
+    ∃ rows, strFor (utf8Encode cs) = .ok rows ∧ rows.length = cs.length ∧
+      ∀ i (h : i < cs.length), rows[i]? =
+        some (utf8EncodeChar cs[i], (⟨i, i == 0, i + 1 == cs.length, cs.length⟩ : LoopData)) := by
+  refine ⟨rowsFrom 0 cs.length cs, strFor_enc cs, rowsFrom_length _ _ _, ?_⟩
+  intro i h
+  have := rowsFrom_get cs.length cs 0 i h
+  simpa [rowData] using this
+
 /-- The char-level view used by the other theorems agrees with the byte-level one: iterating
 yields the one-character strings of the receiver. -/
 theorem for_string_items (cs : List Char) :
@@ -504,5 +526,13 @@ example : strTo [0x68, 0xC3, 0xA9] 2 = .panic "str slice ..idx not on a char bou
   decide +kernel
 example : strIterAll (utf8Encode "a€😀".toList) 4 0 []
     = .ok [[0x61], [0xE2, 0x82, 0xAC], [0xF0, 0x9F, 0x98, 0x80]] := by decide +kernel
+-- "héé" is 3 characters in 5 bytes: three passes, loop.length 3, loop.last on the third only
+example : strFor (utf8Encode "héé".toList) = .ok
+    [([0x68], ⟨0, true, false, 3⟩), ([0xC3, 0xA9], ⟨1, false, false, 3⟩), ([0xC3, 0xA9], ⟨2, false, true, 3⟩)] := by
+  decide +kernel
+example : (utf8Encode "héé".toList).length = 5 ∧ charsCount (utf8Encode "héé".toList) = 3 := by decide +kernel
+-- with a pre-count larger than the number of chars the engine's loop would never end (`next()`
+-- answers None while `remaining > 0`): the model reports that as `.fuel`, so the theorem above is not vacuous
+example : strForLoop (utf8Encode "hé".toList) 9 0 3 (loopInit 3) false [] = .fuel := by decide +kernel
 
 end Tera.C14
